@@ -78,39 +78,66 @@ func c19R1(c *Ctx) {
 			c.check(okEmpty, name+"/return:defaults-no-location", pos, name, "defaults returned only when there is no config location", "defaults are returned without decoding although a location is set")
 			continue
 		}
-		// missing file
-		missing := false
-		for _, f := range facts {
-			if e, s, truth, ok := f.ErrorsIs(); ok && truth && e == decErr {
-				if u, ok := s.(*ssa.UnOp); ok {
-					if g, ok := u.X.(*ssa.Global); ok && g.Name() == "ErrNotExist" {
-						missing = true
+		// after decoding: on every path to this return either the file is missing
+		// (defaults) or the decoder reported no error and left no key undecoded. A
+		// return that several ways of accepting share (`goto ok` after inlining)
+		// is judged way by way.
+		judge := func(facts []Fact) (missing, okErr, undecoded bool) {
+			for _, f := range facts {
+				if e, s, truth, ok := f.ErrorsIs(); ok && truth && e == decErr {
+					if u, ok := s.(*ssa.UnOp); ok {
+						if g, ok := u.X.(*ssa.Global); ok && g.Name() == "ErrNotExist" {
+							missing = true
+						}
 					}
+				}
+				cmp, ok := f.Cmp()
+				if !ok || cmp.Op != token.EQL {
+					continue
+				}
+				if decErr != nil && (cmp.X == decErr || unwrapLoad(cmp.X) == decErr) && isNilConst(cmp.Y) {
+					okErr = true
+				}
+				if k, isC := constInt(cmp.Y); isC && k == 0 {
+					if lc, ok := cmp.X.(*ssa.Call); ok {
+						if bi, ok := lc.Call.Value.(*ssa.Builtin); ok && bi.Name() == "len" {
+							if uc, ok := lc.Call.Args[0].(*ssa.Call); ok {
+								if uf := calleeObj(&uc.Call); uf != nil && uf.Name() == "Undecoded" && (uc.Call.Args[0] == meta || unwrapLoad(uc.Call.Args[0]) == meta || metaOf(uc.Call.Args[0]) == meta) {
+									undecoded = true
+								}
+							}
+						}
+					}
+				}
+			}
+			return
+		}
+		missing, okErr, undecoded := judge(facts)
+		if !missing && decErr != nil && knownNil(decErr, b) {
+			okErr = true
+		}
+		if !missing && !(okErr && undecoded) {
+			if paths, complete := enumeratePaths(parse, b, 512); complete && len(paths) > 0 {
+				allMissing, allErr, allStrict := true, true, true
+				for _, pf := range paths {
+					m, e, u := judge(append(append([]Fact{}, facts...), pf.facts...))
+					if m {
+						continue
+					}
+					allMissing = false
+					allErr = allErr && e
+					allStrict = allStrict && u
+				}
+				if allMissing {
+					missing = true
+				} else {
+					okErr, undecoded = allErr, allStrict
 				}
 			}
 		}
 		if missing {
 			c.ok(name+"/return:defaults-missing-file", pos, name, "a missing file falls back to the defaults")
 			continue
-		}
-		okErr := decErr != nil && knownNil(decErr, b)
-		undecoded := false
-		for _, f := range facts {
-			cmp, ok := f.Cmp()
-			if !ok || cmp.Op != token.EQL {
-				continue
-			}
-			if k, isC := constInt(cmp.Y); isC && k == 0 {
-				if lc, ok := cmp.X.(*ssa.Call); ok {
-					if bi, ok := lc.Call.Value.(*ssa.Builtin); ok && bi.Name() == "len" {
-						if uc, ok := lc.Call.Args[0].(*ssa.Call); ok {
-							if uf := calleeObj(&uc.Call); uf != nil && uf.Name() == "Undecoded" && (uc.Call.Args[0] == meta || unwrapLoad(uc.Call.Args[0]) == meta || metaOf(uc.Call.Args[0]) == meta) {
-								undecoded = true
-							}
-						}
-					}
-				}
-			}
 		}
 		c.check(okErr, name+"/return:decode-error-checked", pos, name, "accepted only if decoding reported no error", "a configuration is accepted although the TOML decoder reported an error (syntax error, wrong value type)")
 		c.check(undecoded, name+"/return:strict", pos, name, "accepted only if len(metadata.Undecoded()) == 0", "a configuration with unknown keys is accepted (strict decoding removed)")
